@@ -208,7 +208,7 @@ theorem topDown_chans' (s t : St) (h : ChansStep s.chans t.chans) : ChansStep s.
     · exact h
 
 theorem closeC_chans_step (s : St) : ChansStep s.chans (closeC s).chans := by
-  unfold closeC; exact abortLoops_chans' s _ (Or.inl rfl)
+  unfold closeC; exact Or.inl rfl
 
 theorem ChansStep.all_closed {a b : List Chan} (h : ChansStep a b) (ha : ∀ c ∈ a, c.closed = true) : ∀ c ∈ b, c.closed = true := by
   rcases h with e | e
@@ -223,7 +223,7 @@ theorem apply_chans (s : St) (a : Act) (hne : ∀ i, a ≠ .closeChannel i) : Ch
   cases a with
   | closeChannel i => exact absurd rfl (hne i)
   | callClose arg => simp only [apply]; left; simp
-  | closeStep => simp only [apply]; split; exact Or.inr rfl; exact abortLoops_chans' s _ (Or.inl rfl)
+  | closeStep => simp only [apply]; split; exact Or.inr rfl; exact closeC_chans_step s
   | appDrop => simp only [apply]; split; exact Or.inl rfl; exact dropAll_chans' s _ (Or.inl rfl)
   | peerAbort => exact sctpEnd_chans' s _ rfl
   | peerShutdownAck => exact sctpEnd_chans' s _ rfl
@@ -267,11 +267,11 @@ theorem apply_chans (s : St) (a : Act) (hne : ∀ i, a ≠ .closeChannel i) : Ch
       · exact Or.inl rfl
   | drvDtls =>
     simp only [apply]; split
-    · exact abortLoops_chans' s _ (by left; simp)
+    · exact abortLoops_chans' s _ (by right; simp)
     · exact Or.inl rfl
   | drvGrace =>
     simp only [apply]
-    exact abortLoops_chans' s _ (by left; simp)
+    exact abortLoops_chans' s _ (by right; simp)
   | sctpDtls =>
     simp only [apply]; split
     · split
@@ -480,7 +480,7 @@ theorem step_done_terminal (s : St) (a : Act) (ht : terminal s = true) (hd : s.d
     | closeStep =>
       simp only [apply]; split
       · exact ⟨(terminal_congr s _ rfl rfl).trans ht, hd⟩
-      · exact ⟨(terminal_congr s _ (by simp [closeC]) (by simp [closeC])).trans ht, by simp [closeC]⟩
+      · exact ⟨(terminal_congr s _ (by simp [closeC]) (by simp [closeC])).trans ht, by simp [closeC, hd]⟩
     | appDrop =>
       simp only [apply]; split
       · exact ⟨(terminal_congr s _ rfl rfl).trans ht, hd⟩
@@ -505,6 +505,7 @@ theorem step_done_terminal (s : St) (a : Act) (ht : terminal s = true) (hd : s.d
     | descsSet => exact ⟨(terminal_congr s _ rfl rfl).trans ht, hd⟩
     | dtlsExit => exact ⟨(terminal_congr s _ rfl rfl).trans ht, hd⟩
     | dtlsSock => exact ⟨(terminal_congr s _ rfl rfl).trans ht, hd⟩
+    | dtlsTimeout => exact ⟨(terminal_congr s _ rfl rfl).trans ht, hd⟩
     | drvTop => simp [enabled, hd] at hen
     | drvRole => simp [enabled, hd] at hen
     | drvDescs => simp [enabled, hd] at hen
@@ -538,16 +539,23 @@ theorem closedUnder_sound (acts : List Act) (V : List St) (hcl : closedUnder act
       simpa using h2
     exact ih (step s a) this (fun b hb => has b (by simp [hb]))
 
-/-- one round of the closure computation -/
-def expand (acts : List Act) (V : List St) : List St :=
-  V.foldl (fun acc s => acts.foldl (fun acc a => let t := step s a; if acc.contains t then acc else acc ++ [t]) acc) V
+/-- one round of the closure computation: only the frontier (the states found in the previous round) is
+expanded; returns (all states, newest first; new frontier) -/
+def expandFrontier (acts : List Act) (V F : List St) : List St × List St :=
+  F.foldl (fun acc s => acts.foldl (fun acc a =>
+    let t := step s a
+    if acc.1.contains t then acc else (t :: acc.1, t :: acc.2)) acc) (V, [])
 
-/-- iterate `expand` until nothing new appears (or the fuel runs out — the certificate check
-`closedUnder` then fails, so a too small fuel is never unsound) -/
-def closure (acts : List Act) : Nat → List St → List St
-  | 0, V => V
-  | n + 1, V =>
-    let V' := expand acts V
-    if V'.length = V.length then V else closure acts n V'
+/-- worklist closure (if the fuel runs out before the frontier is empty the certificate check
+`closedUnder` fails, so a too small fuel is never unsound). Newest states first. -/
+def closureW (acts : List Act) : Nat → List St → List St → List St
+  | 0, V, _ => V
+  | n + 1, V, F =>
+    if F.isEmpty then V
+    else
+      let r := expandFrontier acts V F
+      closureW acts n r.1 r.2
+
+def closure (acts : List Act) (n : Nat) (V : List St) : List St := closureW acts n V V
 
 end RtcModel.Lifecycle
